@@ -90,6 +90,8 @@ def collect_other_regexes(ctx):
                     pat = folder.eval(n.args[0], mod)
                 except NotConst:
                     continue
+                if isinstance(pat, bytes):
+                    pat = pat.decode('latin-1')
                 if isinstance(pat, str):
                     flags = 0
                     if n.func.attr == 'compile' and len(n.args) > 1:
